@@ -7,13 +7,12 @@ CFG = dict(
           "run (before/after the runners finished), grace period none | generous | shorter than the slowest closer, 0..3 Close calls "
           "before Run / at instants during and after it, Add during the run, second Run. Executed in a synctest bubble; every "
           "start/ctx-done/return/closer/fatal event is stamped with virtual time and compared with the instants the statement "
-          "implies (exact, all instants are tie-free by construction). Non-trivial: >= 2 runners with different outcomes (and >= 1 "
+          "implies (exact, all instants are tie-free by construction). Plus the exhaustive enumeration of every order of {Run called, racing Add/AddCloser called and parked at the verif point between its flag test and its lock, released, runners finish, closers finish} for AddCloser, RunnerManager.Add and RunnerCloserManager.Add (accepted => honoured, rejected => never executed, Run returns). Non-trivial: >= 2 runners with different outcomes (and >= 1 "
           "closer for the closer manager), or a Close during the run. Distinct by full case.",
      technique="model-based property testing (rapid; generated topologies and timelines in testing/synctest bubbles; event-log oracle with exact virtual instants)",
      level_text="Every generated topology runs against the real managers; the oracle derives from the statement when each runner "
                 "must see cancellation, when Run/Close may return, which errors are joined, and whether the fatal action fires.",
      level_note="Trusts testing/synctest virtual time. Ties (Close at the instant Run is called, grace equal to a closer duration) "
-                "are excluded because the statement defines no winner. The AddCloser-vs-closing window of a few instructions is "
-                "not placed deliberately (no hook).",
+                "are excluded because the statement defines no winner. The Add/AddCloser flag-test/lock windows are placed through verif points (concurrency package).",
      assumptions=["testing/synctest virtual time is correct", "fatal action replaced through the repository's own WithFatalShutdown (unit tag)"],
      timeout_quick=300, timeout_thorough=2400)
